@@ -119,15 +119,18 @@ class Bench:
 
     def sampled(self, dt, off):
         if self.cur_s != (dt, off):
-            self.sdim.sampling_interval = dt
-            self.sdim.offset = off
+            # written through a FRESH handle, queried through the long-lived one (which has answered queries for
+            # the previous geometry): a descriptor handle must not remember interval, offset or ticks
+            fresh = self.da_s.dimensions[0]
+            fresh.sampling_interval = dt
+            fresh.offset = off
             self.cur_s = (dt, off)
         return self.sdim
 
     def ranged(self, ticks):
         key = tuple(ticks)
         if self.cur_r != key:
-            self.rdim.ticks = list(ticks)
+            self.da_r.dimensions[0].ticks = list(ticks)
             self.cur_r = key
         return self.rdim
 
